@@ -185,6 +185,57 @@ def _bind(st, targets, value, stmt):
         st.env[t.id] = alias
 
 
+# helper methods of the same class are followed (inlined) when a rule installs a resolver:
+# name -> Func or None.  Methods with a verified contract (the delegation table) are not followed.
+_INLINE = {'resolve': None, 'depth': 0}
+
+
+def _inline(call, st, flags):
+    """Generator of caller states after executing `self.helper(...)` symbolically, or None."""
+    res = _INLINE['resolve']
+    if res is None or _INLINE['depth'] >= 3 or astx.path(astx.receiver(call)) != 'self':
+        return None
+    m = astx.callee_attr(call)
+    if m in _SIGS or m in ('asarray', '_get_data'):
+        return None
+    f = res(m)
+    if f is None or f.node.args.vararg or f.node.args.kwarg or f.node.args.kwonlyargs or \
+            any(isinstance(a, ast.Starred) for a in call.args) or f.decorators():
+        return None
+    names = params(f)[1:]
+    if len(call.args) > len(names):
+        return None
+    bound = dict(zip(names, call.args))
+    for k in call.keywords:
+        if k.arg is None or k.arg not in names or k.arg in bound:
+            return None
+        bound[k.arg] = k.value
+    for nm in names:
+        if nm not in bound:
+            d = default_of(f, nm)
+            if d is None:
+                return None
+            bound[nm] = d
+    if any(isinstance(n, (ast.Yield, ast.YieldFrom)) for n in astx.walk(f.node)):
+        return None
+
+    def gen():
+        n0 = len(st.events)
+        callee = St(bound, st.pc, st.events)
+        _INLINE['depth'] += 1
+        try:
+            results = list(_block(list(f.node.body), callee, flags))
+        finally:
+            _INLINE['depth'] -= 1
+        for s3 in results:
+            if s3.done == 'raise':
+                yield s3
+                continue
+            evs = s3.events[:n0] + [e for e in s3.events[n0:] if e.kind != 'return']
+            yield St(st.env, s3.pc, evs, None)
+    return gen()
+
+
 def _step(s, st, flags):
     if astx.is_docstring(s) or isinstance(s, ast.Pass):
         yield st
@@ -200,6 +251,10 @@ def _step(s, st, flags):
                     yield s2
         elif isinstance(v, ast.Call):
             for e, s2 in _eval(v, st, flags):
+                inl = _inline(e, s2, flags)
+                if inl is not None:
+                    yield from inl
+                    continue
                 s2.events.append(Ev('call', e, stmt=s))
                 yield s2
         else:
@@ -372,6 +427,29 @@ _UFUNC_AT = {f'{np_}.{u}.at': op for np_ in ('np', 'numpy')
              for u, op in (('add', 'Add'), ('subtract', 'Sub'), ('multiply', 'Mult'))}
 
 
+_OPERATOR_FUNCS = {'iadd': 'Add', 'add': 'Add', 'isub': 'Sub', 'sub': 'Sub', 'imul': 'Mult', 'mul': 'Mult'}
+_OPERATOR_OK = {'ok': False}   # set by the rule: `operator` is the stdlib module in the analysed file
+
+
+def _read_modify_write(target, value):
+    """(op, operand) if `target = value` re-stores target combined with an operand, else None."""
+    if isinstance(value, ast.BinOp) and type(value.op).__name__ in ('Add', 'Sub', 'Mult'):
+        op = type(value.op).__name__
+        if astx.same(value.left, target):
+            return op, value.right
+        if op != 'Sub' and astx.same(value.right, target):
+            return op, value.left
+    if isinstance(value, ast.Call) and _OPERATOR_OK['ok'] and not value.keywords and len(value.args) == 2:
+        nm = astx.call_name(value) or ''
+        if nm.startswith('operator.') and nm[9:] in _OPERATOR_FUNCS:
+            op = _OPERATOR_FUNCS[nm[9:]]
+            if astx.same(value.args[0], target):
+                return op, value.args[1]
+            if op != 'Sub' and astx.same(value.args[1], target) and nm[9] != 'i':
+                return op, value.args[0]
+    return None
+
+
 class Eff:
     """Normalised effect of one event on this vector's data."""
 
@@ -396,7 +474,11 @@ def effects(st):
                 out.append(Eff('other', ev))
         elif ev.kind == 'store':
             t = ev.a
-            if isinstance(t, ast.Subscript) and self_kind(t.value):
+            rmw = _read_modify_write(t, ev.b)
+            if isinstance(t, ast.Subscript) and self_kind(t.value) and rmw:
+                # data[i] = data[i] op v  /  data[i] = operator.iop(data[i], v)  ==  data[i] op= v
+                out.append(Eff('inplace', ev, rmw[0], self_kind(t.value), t.slice, rmw[1]))
+            elif isinstance(t, ast.Subscript) and self_kind(t.value):
                 out.append(Eff('set', ev, None, self_kind(t.value), t.slice, ev.b))
             elif astx.path(t) == 'self._data':
                 out.append(Eff('rebind', ev))
@@ -792,6 +874,16 @@ def _sq_norm_arg(e):
 @rule('C33.opname', floor=13)
 def opname(repo, out):
     """Each arithmetic method performs the NumPy operation its name promises, in place on asarray()."""
+    _INLINE['resolve'] = lambda m: repo.try_func(DVEC, f'DefaultVector.{m}') or repo.try_func(VEC, f'Vector.{m}')
+    _OPERATOR_OK['ok'] = repo.module(DVEC).imports.get('operator') == ('operator', None)
+    try:
+        _opname(repo, out)
+    finally:
+        _INLINE['resolve'] = None
+        _OPERATOR_OK['ok'] = False
+
+
+def _opname(repo, out):
     for m in list(_SIGS):
         f = repo.try_func(DVEC, f'DefaultVector.{m}')
         if f is not None:
@@ -1969,6 +2061,12 @@ _LAY = ("            end += shape_to_len(shape)\n            views[name] = _VecD
 _LV = ("            end += vinfo.size\n            dct[name[pathlen:]] = (arr[start:end].reshape(vinfo.view.shape), "
        "vinfo.is_scalar)\n            start = end\n")
 
+_HELPER = ("""    def _inplace_op(self, op, val, idxs):
+        data = self.asarray()
+        data[idxs] = op(data[idxs], val)
+
+    def iadd(self, val, idxs=_full_slice):""")
+
 selftest(
     'C33',
     # ---- opname
@@ -2016,6 +2114,16 @@ selftest(
     Mutant('dot-raw-storage', DVEC, "        return np.dot(self.asarray(), vec.asarray())", "        return np.dot(self._data, vec.asarray())", 'C33.opname'),
     Mutant('get-slice-raw-storage', VEC, "        return self.asarray()[slc]", "        return self._data[slc]", 'C33.opname'),
     Mutant('scale-norm-nl-adder', DVEC, "                self._scale_forward(self._nlvec._scaling[0], None)", "                self._scale_forward(*self._nlvec._scaling)", 'C33.roundtrip'),
+    Mutant('helper-wrong-operator', DVEC, _IADD, "        self._inplace_op(operator.isub, val, idxs)", 'C33.opname',
+           also=[(DVEC, "import hashlib\n", "import hashlib\nimport operator\n"),
+                 (DVEC, "    def iadd(self, val, idxs=_full_slice):", _HELPER)]),
+    Mutant('helper-drops-index', DVEC, _IADD, "        self._inplace_op(operator.iadd, val, idxs)", 'C33.opname',
+           also=[(DVEC, "import hashlib\n", "import hashlib\nimport operator\n"),
+                 (DVEC, "    def iadd(self, val, idxs=_full_slice):", _HELPER.replace("data[idxs] = op(data[idxs], val)", "data[:] = op(data[:], val)"))]),
+    Mutant('helper-on-copy', DVEC, _IADD, "        self._inplace_op(operator.iadd, val, idxs)", 'C33.opname',
+           also=[(DVEC, "import hashlib\n", "import hashlib\nimport operator\n"),
+                 (DVEC, "    def iadd(self, val, idxs=_full_slice):", _HELPER.replace("self.asarray()", "self.asarray(copy=True)"))]),
+    Mutant('imul-reversed-binop', DVEC, _ISUB, "        data = self.asarray()\n        data[idxs] = val - data[idxs]", 'C33.opname'),
     Mutant('set-val-real-view', DVEC, "        self._data[idxs] = val", "        data = self.asarray()\n        data[idxs] = val",
            'C33.opname'),
     Mutant('set-val-dot-real', DVEC, "        self._data[idxs] = val", "        self._data.real[idxs] = val", 'C33.opname'),
@@ -2146,6 +2254,13 @@ selftest(
     Twin('twin-set-vec-keyword', DVEC, "        self.set_val(vec.asarray())", "        self.set_val(idxs=_full_slice, val=vec.asarray())"),
     Twin('twin-norm-get-data', DVEC, "        return np.linalg.norm(self.asarray())", "        return np.linalg.norm(self._get_data())"),
     Twin('twin-isub-direct-copy-false', DVEC, _ISUB, "        self.asarray(copy=False)[idxs] -= val"),
+    Twin('twin-helper-operator', DVEC, _IADD, "        self._inplace_op(operator.iadd, val, idxs)",
+         also=[(DVEC, "import hashlib\n", "import hashlib\nimport operator\n"),
+               (DVEC, "    def iadd(self, val, idxs=_full_slice):", _HELPER)]),
+    Twin('twin-helper-keyword', DVEC, _IMUL, "        self._inplace_op(idxs=idxs, val=val, op=operator.imul)",
+         also=[(DVEC, "import hashlib\n", "import hashlib\nimport operator\n"),
+               (DVEC, "    def iadd(self, val, idxs=_full_slice):", _HELPER)]),
+    Twin('twin-isub-binop', DVEC, _ISUB, "        data = self.asarray()\n        data[idxs] = data[idxs] - val"),
     Twin('twin-set-val-local-raw', DVEC, "        self._data[idxs] = val", "        data = self._data\n        data[idxs] = val"),
     Twin('twin-set-val-asarray', DVEC, "        self.set_val(vec.asarray())", "        self._data[:] = vec.asarray()"),
     Twin('twin-asarray-ifexp', DVEC, "        if copy:\n            return arr.copy()\n\n        return arr", "        return arr.copy() if copy else arr"),
